@@ -337,6 +337,29 @@ def run(ctx):
             if not ok:
                 ctx.violation("lock:not-a-mutex", "p_shm_lock history has no linearization as one mutex with visible critical-section writes (stuck at event %s)" % matched[0], [f])
         ctx.extra["lock_histories"] = len(lfiles)
+        # threads of one process creating different segments at the same moment, then reading each other's
+        nexe = build.driver("drv_shm_names", ["drv_shm_names.c"], variant="default")
+        nprefix = prefix + "_n"
+        names += ["%s_%d" % (nprefix, n) for n in (1, 2, 3)]
+        base = ctx.path("names")
+        cmd = [nexe, base, nprefix, str(120 if ctx.quick else 1200), str(rng.randint(1, 10 ** 6))]
+        rc, out, to = run_driver(cmd, timeout=120)
+        if to or rc != 0:
+            ipcnames.cleanup(names)
+            for f in os.listdir(ctx.rundir):
+                if f.startswith("names."):
+                    os.unlink(ctx.path(f))
+            rc, out, to = run_driver(cmd, timeout=120)
+        if to or rc != 0:
+            ctx.violation("names:%s" % ("stuck" if to else "crash"), "threads creating different segments at the same moment did not finish (rc=%s) twice: %s" % (rc, out[-300:]), [])
+        else:
+            pth, evs = traces.merge(base)
+            ctx.events += len(evs)
+            nfiles = [traces.write(ch, base + "_c%d.ndjson" % ci) for ci, ch in enumerate(traces.split_at(evs, "Epoch", 6000))]
+            for f, ok, matched in ctx.validate_many("ipc/ShmTrace.tla", cfg, nfiles, par=6, timeout=900):
+                if not ok:
+                    ev = [json.loads(x) for x in open(f)][matched[0]]
+                    ctx.violation("names:%s" % ev.get("op", ev["e"]), "segments created at the same moment by threads of one process are not independent objects: ShmTrace rejects event %s: %s" % (matched[0], json.dumps(ev)[:300]), [f])
     finally:
         left = ipcnames.leftovers(names)
         ipcnames.cleanup(names)
